@@ -641,8 +641,8 @@ class C11(PropertyCheck):
             w["method"] = rng.choice(sc.METHODS_ODD)
         if rng.random() < 0.25:
             w["cons"] = rng.choice(sc.CONS_LISTS)
-        if rng.random() < 0.3:
-            w["form"] = rng.choice(sc.FORMS[1:])
+        if rng.random() < 0.35:
+            w["form"] = rng.choice(sc.FORMS[1:] + sc.OBJECT_FORMS)
         if floats:     # arbitrary floats: only the final property, with a tolerance
             w.update(durs=[rng.choice([rng.uniform(0.01, 50.0), 10 ** rng.uniform(-6, 6)]) for _ in range(L)], den=1, tol=1e-6)
         else:
@@ -698,8 +698,11 @@ class C11(PropertyCheck):
         lists = self.CTOR_LISTS + [([("CNOT", [1], [0]), ("X", [0], [])], [3, 1]), ([("X", [0], []), ("CNOT", [1], [0])], [1, 3]),
                                    ([("CNOT", [1], [0]), ("SNOT", [0], []), ("CNOT", [2], [0])], [2, 1, 2]),
                                    ([("CZ", [1], [0]), ("RX", [0], []), ("RZ", [1], [])], [2, 3, 1])]
+        lists += [([("CRX", [1], [0]), ("CRY", [1], [0])], [2, 1]), ([("CX", [2], [0]), ("CY", [2], [1])], [1, 2]),
+                  ([("CT", [0], [1]), ("CY", [0], [2])], [2, 2]), ([("CS", [1], [0]), ("CRZ", [1], [0]), ("CRX", [1], [0])], [1, 1, 2]),
+                  ([("SWAP", [1], [0]), ("SWAP", [2], [0])], [1, 2])]
         for seq, durs in lists:
-            for form in sc.FORMS[1:]:
+            for form in sc.FORMS[1:] + sc.OBJECT_FORMS:
                 for m in ("ASAP", "ALAP"):
                     yield {"ins": specs_from(seq), "durs": list(durs), "den": 1, "method": m, "perm": True, "shuf": None,
                            "scope": "covered", "form": form}
